@@ -183,12 +183,57 @@ def sub_shear(ctx):
     ctx.run_given(body, shear_cases(), max_examples=ctx.n(150, 7500), shrink=not ctx.quick)
 
 
+def sub_large_grid(ctx):
+    """thorough tier, one shard: a spectrum whose non-Gamma q-points are replicated k times with weights divided by k is the
+    same physical spectrum; with (nt x ntv x nq x np) beyond 2^25 elements the results must equal those of the small one."""
+    if ctx.quick or ctx.shard != 0:
+        return
+    from cij.core.phonon_contribution.nonshear import (
+        LongitudinalElasticModulusPhononContribution as Lon, OffDiagonalElasticModulusPhononContribution as Off)
+    import gc
+    rng = np.random.default_rng(ctx.seed)
+    nt, ntv, nq0, na = 40, 8, 7, 12
+    rep = int(np.ceil((2 ** 25 * 1.05) / (nt * ntv * 3 * na * (nq0 - 1))))
+    s = {"nq": nq0, "na": na, "ntv": ntv, "T": [0.0] + list(np.linspace(50, 3000, nt - 1)), "seed": int(rng.integers(0, 2 ** 31)),
+         "garbage": False, "weights": list(rng.uniform(0.5, 3.0, nq0)), "V": list(np.linspace(900, 700, ntv))}
+    full = build_duck_spec(s)
+    big = dict(full)
+    for k in ("nu", "gam", "g"):
+        big[k] = np.concatenate([full[k][:, :1]] + [full[k][:, 1:]] * rep, axis=1)
+    big["weights"] = np.concatenate([np.array(full["weights"][:1]), np.tile(np.array(full["weights"][1:]) / rep, rep)])
+    big["nq"] = big["nu"].shape[1]
+    ei = np.full(ntv, 0.3)
+    ej = np.full(ntv, 0.45)
+    case = {"large_grid": True, "elements": int(nt * ntv * big["nq"] * 3 * na), "replication": rep, "seed": s["seed"]}
+    out = {}
+    for tag, spec in (("small", full), ("large", big)):
+        with warnings.catch_warnings(), np.errstate(all="ignore"):
+            warnings.simplefilter("ignore")
+            for cls, nm, e2 in ((Lon, "lon", ei), (Off, "off", ej)):
+                obj = cls(DuckCalculator(spec), (ei, e2))
+                out[(tag, nm)] = (np.array(obj.value_isothermal), np.array(obj.value_adiabatic))
+                del obj
+                gc.collect()
+    for nm in ("lon", "off"):
+        for n, what in ((0, "isothermal"), (1, "adiabatic")):
+            a, b = out[("small", nm)][n], out[("large", nm)][n]
+            if np.max(np.abs(a - b)) > 1e-9 * np.max(np.abs(a)):
+                raise PropertyViolation("C02/large-grid/%s" % what, "%s %s value changes by %.3g relative when every q-point is listed %d times "
+                                        "with 1/%d of its weight (%d array elements)" % (nm, what, float(np.max(np.abs(a - b)) / np.max(np.abs(a))),
+                                                                                      rep, rep, case["elements"]), case)
+    ctx.case(case, True, classes=["large-grid(>2^25 elements)"])
+
+
 def subchecks(ctx):
-    return [("gap", sub_gap), ("shear", sub_shear)]
+    return [("gap", sub_gap), ("shear", sub_shear), ("large_grid", sub_large_grid)]
 
 
 def replay(ctx, payload):
     case = payload["case"]
+    if case.get("large_grid"):
+        c2 = type(ctx)(ctx.prop_id, "thorough", ctx.base_seed)
+        sub_large_grid(c2)
+        return
     full = dict(case)
     for k in ("nu", "gam", "g", "pressures", "static_p", "cv"):
         full[k] = np.array(case[k], dtype=float)
